@@ -23,12 +23,18 @@ func init() { streams["C07"] = streamC07 }
 func streamC07(c *Ctx) {
 	c.Rule = "an insert batch beyond badger's transaction limit is refused as a whole (never committed in parts); 2-8 goroutines on one handle (bbolt: lock/snapshot discipline; badger: optimistic transactions, conflicts retried), scheduling perturbed at every store call (Gosched / short sleeps), race detector on: " +
 		"tagged batch inserts, bulk updates and bulk deletes observed by concurrent readers must be all-or-nothing and version-uniform; a shared counter incremented by UpdateById must equal the number of acknowledged increments and be monotone for every reader; concurrent index create/drop must not change any answer; " +
-		"the final state must be the one the per-tag sequential histories give. non-trivial = distinct (round, reader observation) that saw a tag present"
+		"the final state must be the one the per-tag sequential histories give; pairs of bulk updates that move documents into each other's selection (by equality, by range, across two fields; with and without indexes; each held after selecting until the other has selected) end in the state of one of their two sequential orders. non-trivial = distinct (round, reader observation) that saw a tag present"
 	rounds := c.N(6, 80)
 	// an operation larger than one backend transaction must not be split into several (its parts would become
 	// visible to concurrent readers one after the other): it is refused as a whole
 	if !bigBatchNoTrace(c, "badger-mem") {
 		return
+	}
+	// two bulk writes that move documents into each other's selection, held until both have selected
+	for _, be := range []string{"bbolt", "badger-mem", "badger-disk"} {
+		if !c07CrossingWrites(c, be) {
+			return
+		}
 	}
 	for _, be := range []string{"bbolt", "badger-mem"} {
 		for round := 0; round < rounds; round++ {
